@@ -134,12 +134,12 @@ func doReplace(obj *OpObj, target dom.ContainerBuilder) error {
 	if obj.Value == nil {
 		return ErrOoValueMissing
 	}
-	nl, n := obj.Path.Eval(target)
+	_, n := obj.Path.Eval(target)
 	// The target location MUST exist for the operation to be successful.
 	if n == nil {
 		return fmt.Errorf("path does not resolve to existing node: %s", obj.Path.String())
 	}
-	parent := nl[len(nl)-2]
+	_, parent := obj.Path.Parent().Eval(target)
 	if idx, isNum := obj.Path.LastSegment().IsNumeric(); isNum && parent.IsList() {
 		parent.(dom.ListBuilder).Set(uint(idx), obj.Value)
 	} else {
